@@ -33,7 +33,7 @@ REL = None
 
 
 def floors(tier):
-    return {"requests": 20000, "repeat_requests_checked": 2000, "fd_grads_compared": 2000, "histories_over_points_one_ulp_apart": 200, "histories_with_transient_faults": 400,
+    return {"requests": 20000, "repeat_requests_checked": 2000, "fd_grads_compared": 2000, "histories_over_points_one_ulp_apart": 200, "histories_with_transient_faults": 400, "histories_with_user_relative_step": 300, "solver_runs_logged": 40,
             "requests_failing_in_the_user_function": 300, "__nontrivial__": 100}
 
 
@@ -89,7 +89,8 @@ def default_factory(fun, x0, jac, bounds, eps, rel):
 class Driver:
     """Drives one wrapper instance through a history and checks every answer."""
 
-    def __init__(self, mode, n, lb, ub, x_init, out: Outcome, factory=default_factory, mutate=True, resolving=False, fail_f=(), fail_g=()):
+    def __init__(self, mode, n, lb, ub, x_init, out: Outcome, factory=default_factory, mutate=True, resolving=False, fail_f=(), fail_g=(),
+                 rel=REL, eps_abs=EPS_ABS):
         from scipy.optimize._numdiff import approx_derivative as ref_ad
 
         self.ref_ad = ref_ad
@@ -120,7 +121,8 @@ class Driver:
                 raise TransientFault(f"gradient call #{k} failed")
             return self.gp(np.array(x, copy=True))
 
-        self.sf = factory(fun, x_init.copy(), jac if mode == "callable" else mode, (lb, ub), EPS_ABS, REL)
+        self.rel, self.eps_abs = rel, eps_abs
+        self.sf = factory(fun, x_init.copy(), jac if mode == "callable" else mode, (lb, ub), eps_abs, rel)
         self.scale = 1.0
         self.nad_own = 0  # differencing-routine invocations caused by this wrapper's own requests
         self.prev_point = None
@@ -136,8 +138,8 @@ class Driver:
             return self.gp(x) * self.scale
         method = "2-point" if self.mode is None else self.mode
         g = self.ref_ad(
-            self.fp, x, f0=self.fp(x), method=method, rel_step=REL,
-            abs_step=(EPS_ABS if self.mode is None else None), bounds=(self.lb, self.ub),
+            self.fp, x, f0=self.fp(x), method=method, rel_step=self.rel,
+            abs_step=(self.eps_abs if self.mode is None else None), bounds=(self.lb, self.ub),
         )
         self.out.count("fd_grads_compared")
         return g * self.scale
@@ -281,9 +283,9 @@ def alphabet_ulp(n=2):
     return lb, ub, [d0, d1, d2]
 
 
-def run_history(mode, hist, scale_pos, mutate, out, factory=default_factory, n=2, label="", ulp=False, fail_f=(), fail_g=()):
+def run_history(mode, hist, scale_pos, mutate, out, factory=default_factory, n=2, label="", ulp=False, fail_f=(), fail_g=(), rel=REL, eps_abs=EPS_ABS):
     lb, ub, pts = alphabet_ulp(n) if ulp else alphabet(n)
-    drv = Driver(mode, n, lb, ub, pts[0], out, factory=factory, mutate=mutate, resolving=ulp, fail_f=fail_f, fail_g=fail_g)
+    drv = Driver(mode, n, lb, ub, pts[0], out, factory=factory, mutate=mutate, resolving=ulp, fail_f=fail_f, fail_g=fail_g, rel=rel, eps_abs=eps_abs)
     for k, sym in enumerate(hist):
         if scale_pos is not None:
             if k == scale_pos:
@@ -306,9 +308,60 @@ def cases(tier, seed):
     nrand = 320 if tier == "quick" else 3200
     for i in range(nrand):
         yield {"kind": "random", "mode": MODES[i % 5], "seed": subseed("C15r", seed, i) % (2**31), "count": 16}
+    for i in range(96 if tier == "quick" else 3000):
+        yield {"kind": "solver", "mode": "callable", "seed": subseed("C15s", seed, i) % (2**31)}
     nint = 200 if tier == "quick" else 3000
     for i in range(nint):
         yield {"kind": "interleaved", "modes": [MODES[i % 5], MODES[(i // 5 + 1 + i) % 5]], "seed": subseed("C15i", seed, i) % (2**31), "count": 8}
+
+
+def run_solver_log(spec, out):
+    """The wrapper as the solver drives it: runs pushed to machine precision (ftol = gtol = 0, starved and ample line searches, failed
+    searches and memory reboots at the end), every user call logged. With a callable gradient the user's objective (gradient) must
+    never be called twice in a row at the same point, and nfev / njev equal the calls."""
+    from lbfgsb import minimize_lbfgsb
+
+    rng = np.random.default_rng(spec["seed"])
+    n = int(rng.integers(1, 6))
+    c = rng.standard_normal(n) * float(10.0 ** rng.integers(0, 9)) / 3.0  # minimiser not a round number, coordinates up to 1e8
+    w = np.exp(rng.uniform(-1, 1, n))
+    kind = int(rng.integers(0, 3))
+    flog, glog = [], []
+
+    def fun(x):
+        flog.append(np.array(x, copy=True))
+        d = x - c
+        return float(np.sum(w * d * d) + (0.1 * np.sum(d ** 4) if kind == 1 else 0.0) + (np.sum(np.cos(d)) if kind == 2 else 0.0))
+
+    def jac(x):
+        glog.append(np.array(x, copy=True))
+        d = x - c
+        return 2 * w * d + (0.4 * d ** 3 if kind == 1 else 0.0) - (np.sin(d) if kind == 2 else 0.0)
+
+    x0 = c + rng.standard_normal(n) * float(np.exp(rng.uniform(-2, 3)))
+    lb = np.where(rng.random(n) < 0.3, c - np.abs(rng.standard_normal(n)), -np.inf)
+    ub = np.where(rng.random(n) < 0.3, c + np.abs(rng.standard_normal(n)), np.inf)
+    x0 = np.clip(x0, lb, ub)
+    res = minimize_lbfgsb(x0=x0, fun=fun, jac=jac, bounds=np.column_stack([lb, ub]), ftol=0.0, gtol=0.0, maxiter=300, maxfun=3000,
+                          maxls=int([1, 2, 5, 20, 20][int(rng.integers(0, 5))]), maxcor=int(rng.integers(1, 8)))
+    out.count("solver_runs_logged")
+    out.count("requests", len(flog) + len(glog))
+    if "LNSRCH" in str(res.message):
+        out.count("solver_runs_ending_in_failed_line_search")
+    for name, log in (("objective", flog), ("gradient", glog)):
+        for k in range(1, len(log)):
+            out.count("consecutive_solver_calls_checked")
+            if np.array_equal(log[k], log[k - 1]):
+                out.violate("reevaluated_known_point", f"solver run n={n} ({res.message!r}, nit={res.nit}): the user's {name} was called twice in a row at the same "
+                            f"point (calls #{k - 1} and #{k})", mode="callable", what="solver_" + name)
+                break
+    if res.nfev != len(flog):
+        out.violate("nfev_drift", f"solver run n={n}: nfev={res.nfev} but the objective was called {len(flog)} times", mode="callable")
+    if res.njev != len(glog):
+        out.violate("ngev_drift", f"solver run n={n}: njev={res.njev} but the gradient was called {len(glog)} times", mode="callable")
+    out.nontrivial = True
+    out.key = f"solver/{spec['seed']}"
+    out.sample = dict(spec=spec, message=str(res.message), nit=int(res.nit), calls=len(flog))
 
 
 def has_revisit(hist):
@@ -352,6 +405,8 @@ def run(spec):
             out.nontrivial = nrev > 0
             out.key = f"{mode}/{spec['prefix']}/{spec['mutate']}/L{L}"
             out.sample = dict(spec=spec, last_history=[(OPS[s // 3], "abc"[s % 3]) for s in hist])
+        elif spec["kind"] == "solver":
+            run_solver_log(spec, out)
         elif spec["kind"] == "interleaved":
             # two wrappers alive at once (an outer and a nested optimisation, or two threads): each one's answers must
             # not depend on the other's gradient mode, step settings or bounds
@@ -390,6 +445,12 @@ def run(spec):
                 sp = int(rng.integers(0, Lr))
                 variant = ("plain", "ulp", "faults", "faults")[j % 4]
                 kw = {}
+                if variant in ("plain", "faults") and mode != "callable":
+                    # differencing settings of the user: a relative step (string modes) / an absolute step (jac=None) other than the defaults
+                    kw["rel"] = [None, 1e-7, 1e-4, 1e-2][int(rng.integers(0, 4))]
+                    kw["eps_abs"] = [EPS_ABS, 1e-5, 1e-9][int(rng.integers(0, 3))]
+                    if kw["rel"] is not None:
+                        out.count("histories_with_user_relative_step")
                 if variant == "ulp":
                     kw["ulp"] = True  # consecutive request points one / two units in the last place apart
                     out.count("histories_over_points_one_ulp_apart")
